@@ -27,6 +27,10 @@ func childScale(b run.Batch, r *ev.Result, rng *rand.Rand) {
 	// the server is first started long after genesis: start-up catch-up
 	// produces 3–5 weeks without any device
 	emptyWeeks := 3 + rng.Intn(3)
+	if b.P("slice") != "1" {
+		// more than two years before the first device: an archive longer than any in-memory bound would keep
+		emptyWeeks = 108 + rng.Intn(40)
+	}
 	initialClock = uint32(2016*(emptyWeeks-1) + 4000 + rng.Intn(2000))
 	w, err := newWorld(b, r, rng, "srv")
 	initialClock = 0
